@@ -47,6 +47,13 @@ def fault_cases():
             cases.append((f"nested-lookup-to-{label}/" + pos,
                           *place(["-l", "Root", "x.y", "lk2.json"], {"lk2.json": {"x": {"y": doc}}}), True))
             cases.append((f"toplevel-{label}/" + pos, *place(["-m", "Root", "tl.json"], {"tl.json": json.dumps(doc)}), True))
+        # the same file given again for the same model with another (faulty) lookup
+        rep = {"rep.json": {"items": GOOD, "total": 5, "nothing": None}}
+        for label, lk in (("scalar", "total"), ("missing", "absent"), ("null", "nothing")):
+            cases.append((f"same-file-second-lookup-{label}/" + pos,
+                          *place(["-m", "Root", "items", "rep.json", "-m", "Root", lk, "rep.json"], rep), True))
+            cases.append((f"same-file-l-after-m-{label}/" + pos,
+                          *place(["-m", "Root", "items", "rep.json", "-l", "Root", lk, "rep.json"], rep), True))
         cases.append(("null-among-samples/" + pos, *place(["-m", "Root", "ns.json"], {"ns.json": [{"a": 1}, None]}), True))
         cases.append(("non-object-sample/" + pos, *place(["-m", "Root", "n.json"], {"n.json": [1, 2]}), True))
         cases.append(("one-arg-model/" + pos, *place(["-m", "Root"]), True))
